@@ -59,6 +59,11 @@ def compose_and_check(it, fn, a):
         return ["versions 2xx must refuse to omit end tags"]
     password = rng.choice(TEXTS)
     reqs = [mk_request(k, rng, i) for i, k in enumerate(kinds)]
+    if reqs and seed % 2 == 1:
+        # a multiset may hold the very same request twice: one wrapper per requested account *occurrence*
+        j = rng.randrange(len(reqs))
+        kinds = list(kinds) + [kinds[j]]
+        reqs = reqs + [reqs[j]]
     if seed % 3 == 0:
         # "in every configuration" includes the configuration after other calls on the same client - successful or
         # refused: a profile request with per-call overrides, an account-information request
